@@ -220,4 +220,13 @@ def write_evidence(prop, spec, tier, seed, results, wall, violations=0, known=()
 
 
 if __name__ == "__main__":
-    sys.exit(main())
+    try:
+        rc = main()
+    except SystemExit:
+        raise
+    except BaseException as e:  # a crash of the machinery is inconclusive, never a verdict
+        import traceback
+        traceback.print_exc()
+        print("INCONCLUSIVE: internal error in the checker: %r" % (e,))
+        rc = 2
+    sys.exit(rc)
